@@ -363,6 +363,11 @@ class _Gen:
         if n is None:
             n = self.draw(st.integers(1, 6))
         t = self.draw(st.text(alphabet=alpha, min_size=n, max_size=n))
+        if self.boolean(0.2):
+            # the one character whose windows-1252 image is the break byte: written as is outside chunked
+            # sections, as 'y' inside
+            k_ = self.draw(st.integers(0, n - 1))
+            t = t[:k_] + "\u00ff" + t[k_ + 1:]
         if n >= 4 and self.boolean(0.15):
             # inner white space is part of the constant: runs of blanks, a tab
             t = t[0] + self.pick(["  ", " \t", "\t ", "   "[:2]]) + t[3:]
